@@ -269,7 +269,6 @@ class BlockingPortal:
                 retval = retval_or_awaitable
         except get_cancelled_exc_class():
             future.cancel()
-            future.set_running_or_notify_cancel()
         except BaseException as exc:
             if not future.cancelled():
                 try:
@@ -290,6 +289,11 @@ class BlockingPortal:
                     pass
         finally:
             scope = None  # type: ignore[assignment]
+
+            # Regardless of who cancelled the future (us, or the caller), notify
+            # concurrent.futures.wait() and as_completed() now that the task is done
+            if future.cancelled():
+                future.set_running_or_notify_cancel()
 
     def _spawn_task_from_thread(
         self,
